@@ -36,14 +36,22 @@ def run_scenario(sc: dict[str, Any]) -> dict[str, Any]:
     try:
         reg = sim.registry()
         table = sc['table']                # {f"{name}:{x}:{idx}": [k, key, val, d]}
-        ran: dict[str, list[str]] = {o: [] for o in OBJS}
+        ran: dict[str, list[str]] = {}          # per incarnation (uid): the index handlers invoked since its last dump
+        incarnation: dict[str, str] = {}        # uid -> "a1", "a2", ...: a re-created object is another object under the same name
+        per_name: dict[str, int] = {}
+
+        def inc(name, uid):
+            if uid not in incarnation:
+                per_name[name] = per_name.get(name, 0) + 1
+                incarnation[uid] = f'{name}{per_name[name]}'
+            return incarnation[uid]
         steps: list[dict[str, Any]] = []
         first_change = {'t': 0, 'n': 0}
         index_times: dict[str, float] = {}
 
         def mk_index(iid):
-            async def fn(name, spec, **_):
-                ran.setdefault(name, []).append(iid)
+            async def fn(name, spec, uid, **_):
+                ran.setdefault(uid, []).append(iid)
                 index_times.setdefault(name, sim.now)
                 k, key, val, d = table.get(f'{name}:{spec.get("x")}:{iid}', ['dict', 'k1', 0, 0])
                 if k == 'dict': return {key: val}
@@ -57,18 +65,22 @@ def run_scenario(sc: dict[str, Any]) -> dict[str, Any]:
         kopf.index(GROUP, VERSION, PLURAL, registry=reg, id='byk', labels={'ix': 'yes'})(mk_index('byk'))
         kopf.index(GROUP, VERSION, PLURAL, registry=reg, id='all')(mk_index('all'))
 
-        async def dump(name, spec, body, type, byk, all, **_):
+        async def dump(name, spec, body, type, byk, all, uid, **_):
             if name not in OBJS:
                 return
+            import asyncio
             d = {'byk': {('<none>' if k is None else str(k)): sorted(list(v)) for k, v in byk.items()},
                  'all': {('<none>' if k is None else str(k)): sorted(list(v)) for k, v in all.items()}}
             labels = body.get('metadata', {}).get('labels', {}) or {}
             x = spec.get('x')
             none = ['dict', 'k1', 0, 0]
-            steps.append({'o': name, 'type': type or 'NONE', 't': int(sim.now), 'match': {'byk': labels.get('ix') == 'yes', 'all': True},
+            steps.append({'o': inc(name, uid), 'type': type or 'NONE', 't': int(sim.now), 'match': {'byk': labels.get('ix') == 'yes', 'all': True},
                           'out': {i: dict(zip(['k', 'key', 'val', 'd'], table.get(f'{name}:{x}:{i}', none))) for i in IDX},
-                          'ran': list(ran.get(name, [])), 'dump': d})
-            ran[name] = []
+                          'ran': list(ran.get(uid, [])), 'dump': d})
+            ran[uid] = []
+            slow = sc.get('slow')
+            if slow and slow['o'] == name and slow['x'] == x:
+                await asyncio.sleep(slow['d'])        # this object's worker is busy for a while: its next events queue up behind
         kopf.on.event(GROUP, VERSION, PLURAL, registry=reg, id='dump')(dump)
 
         async def on_create(**_):
@@ -112,6 +124,8 @@ def run_scenario(sc: dict[str, Any]) -> dict[str, Any]:
                 sim.edit(o, lambda b: (b['spec'].update(x=x[o]), b['metadata'].setdefault('labels', {}).update(ix='no' if on else 'yes')))
             elif opn == 'delete' and cur is not None:
                 sim.delete(o)
+            elif opn == 'recreate' and cur is not None:        # deleted and created again under the same name at once: another object
+                sim.delete(o); x[o] += 1; sim.create(o, {'x': x[o]}, labels={'ix': 'yes'})
         for (t, opn, o) in sc.get('env', []):
             sim.world.at(t, (lambda opn=opn, o=o: do(opn, o)), 1)
         stall = False
@@ -150,6 +164,12 @@ def gen_scenarios(seed: int, n: int) -> list[dict[str, Any]]:
                     k = rnd.choices(['dict', 'scalar', 'none', 'temp', 'perm', 'exc'], [10, 2, 2, 2, 1, 2])[0]
                     table[f'{o}:{xx}:{iid}'] = [k, rnd.choice(['k1', 'k2']), xx * 10 + OBJS.index(o), rnd.choice([1, 3]) if k == 'temp' else 0]
         out.append({'id': f'index-{seed}-{i}', 'table': table, 'env': env, 'end': t + 20})
+        if i % 4 == 1:      # an object is re-created under its name while the worker of the old one is still busy: DELETED(old) after ADDED(new)
+            r2 = random.Random(f'index-re-{seed}-{i}')
+            o = r2.choice(OBJS); t0 = r2.randint(2, 6)
+            out[-1]['env'] = sorted([e_ for e_ in env if not (e_[2] == o and e_[0] <= t0 + 6)] + [(1, 'add', o), (t0, 'edit', o), (t0 + 1, 'recreate', o)]
+                                    + ([(t0 + 2, 'edit', o)] if r2.random() < 0.5 else []), key=lambda e_: e_[0])
+            out[-1]['slow'] = {'o': o, 'x': 2, 'd': r2.choice([3, 5])}
     return out
 
 
@@ -174,7 +194,9 @@ def judge(traces, rep) -> dict[str, str]:
         path = os.path.join(scratch, 'traces.json')
         with open(path, 'w') as f:
             json.dump([{'id': t['id'], 'steps': t['steps'], 'gate': t['gate']} for t in traces], f)
-        cfg = 'SPECIFICATION Spec\nCONSTANTS\n  Idx = {"byk", "all"}\n  Objs = {"a", "b", "c"}\nCONSTRAINT Book\nPOSTCONDITION Verdicts\nCHECK_DEADLOCK FALSE\n'
+        objs = sorted({s_['o'] for t in traces for s_ in t['steps']} | {'a1'})
+        cfg = ('SPECIFICATION Spec\nCONSTANTS\n  Idx = {"byk", "all"}\n  Objs = {%s}\nCONSTRAINT Book\nPOSTCONDITION Verdicts\nCHECK_DEADLOCK FALSE\n'
+               % ', '.join('"%s"' % o for o in objs))
         r = tlc.run('Indexing', cfg_text=cfg, workers=1, env={'TRACE_FILE': path}, timeout=1800)
     finally:
         shutil.rmtree(scratch, ignore_errors=True)
